@@ -22,7 +22,8 @@ TGet(t, id) == IF id \in DOMAIN t THEN t[id] ELSE 0
 TAdd(t, id, w) == (id :> (TGet(t, id) + w)) @@ t
 TSum(t, u) == [id \in (DOMAIN t) \cup (DOMAIN u) |-> TGet(t, id) + TGet(u, id)]
 
-Sc(st) == [na |-> st.nAct, off |-> st.offset, wt |-> st.weight, lg |-> st.lgCur]
+\* scalars after every call, including the configured maximum the sketch reports about itself
+Sc(st) == [na |-> st.nAct, off |-> st.offset, wt |-> st.weight, lg |-> st.lgCur, lgm |-> st.lgMax, mcap |-> CapOf(st.lgMax)]
 
 \* C07 for one item
 ItemOK(st, g, x) ==
@@ -67,6 +68,7 @@ TrUpd ==
   /\ gh' = [gh EXCEPT ![Ev.id] = [@ EXCEPT !.truth = TAdd(@, Ev.x[1], Ev.w), !.w = @ + Ev.w]]
   /\ LET n == obj'[Ev.id] IN
      /\ On("C07") => (Sc(n) = Ev.st /\ ItemOK(n, gh'[Ev.id], X(Ev.x)) /\ ScalarsOK(n, gh'[Ev.id]))
+     /\ On("C18") => (Ev.st.na <= Ev.st.mcap /\ Ev.st.mcap = CapOf(n.lgMax) /\ Ev.st.lgm = n.lgMax /\ Ev.st.na = n.nAct)
      /\ On("C18") => n.nAct <= CapOf(n.lgMax)
 
 TrMerge ==
